@@ -61,7 +61,7 @@ def strategy(tier):
 
 
 def exhaustive(tier):
-    yield ("deep chain of nested prefix keys (as deep as set() can build): traverse / traverse_from at every depth",
+    yield ("deep chain of nested prefix keys (200 levels, or as deep as set() can build if that is less): traverse / traverse_from at every depth",
            iter([{"deep": 0}, {"deep": 1}]))
 
 
